@@ -207,7 +207,7 @@ def _run(ck, seed, quick, pool, nproc, t0):
     for i, ch in enumerate(chunks(files, nproc if quick else nproc * 3)):
         pur_jobs.append(pool.apply_async(L.task_purity, ({"base": (i + 1) * 100000, "seed": seed * 100 + i, "files": ch,
                                                           "light": quick},)))
-    walks_f = ex.submit(purity_texts, ck, 120 if quick else 1500, seed)
+    walks_f = ex.submit(purity_texts, ck, 120 if quick else 800, seed)
 
     # ---- (M) a first tiny run (one of the negative configurations) also delivers the document table
     name0, kw0, want0 = NEGATIVES[-1]
@@ -225,8 +225,8 @@ def _run(ck, seed, quick, pool, nproc, t0):
         model_jobs["reuse_4calls"] = ex.submit(run_calls, "reuse4", calls_cfg([1], "shared_all", PURE, ALLDOCS, 4, 4),
                                                None, 2, tmo)
     else:
-        model_jobs["fresh_3threads"] = ex.submit(run_calls, "fresh3", calls_cfg([1, 2, 3], "fresh", CORE, ALLDOCS, 3, 1),
-                                                 None, 10, tmo)
+        model_jobs["fresh_3threads"] = ex.submit(run_calls, "fresh3", calls_cfg([1, 2, 3], "fresh", CORE, [1, 3, 4, 5], 3, 1),
+                                                 None, 8, tmo)
         model_jobs["fresh_2threads_2calls"] = ex.submit(run_calls, "fresh2x2", calls_cfg([1, 2], "fresh", PURE, ALLDOCS, 4, 2),
                                                         None, 4, tmo)
         model_jobs["reuse_6calls"] = ex.submit(run_calls, "reuse6", calls_cfg([1], "shared_all", PURE, ALLDOCS, 6, 6),
@@ -323,26 +323,36 @@ def _run(ck, seed, quick, pool, nproc, t0):
     records, cases, loaded = [], {}, 0
     cpu = {"purity": 0.0, "reuse": 0.0, "schedules": 0.0, "stress": 0.0}
     for j in pur_jobs:
-        res = j.get(1800)
+        res = j.get(1800 if quick else 7200)
         cpu["purity"] += res["cpu"]
         records += res["records"]
         cases.update(res["cases"])
         loaded += res["loaded"]
-    trace = os.path.join(BUILD, "c12_purity_%d.ndjson" % seed)
-    with open(trace, "w") as f:
-        for r in records:
-            f.write(json.dumps({k: r[k] for k in ("tid", "call", "fn", "pre", "post", "diff")}) + "\n")
     mark("purity_recorded")
-    rt_f = ex.submit(tlc.run, "TraceCalls", tlc.cfg_text(init="TInit", next_="TNext", invariants=["Report", "Counted"]),
-                     tag="c12_tracecalls", workers=1, env={"TRACE_FILE": trace}, timeout=tmo)
+    part_size = 20000
+    rt_fs = []
+    for pi in range(0, max(1, len(records)), part_size):
+        part = records[pi:pi + part_size]
+        trace = os.path.join(BUILD, "c12_purity_%d_%d.ndjson" % (seed, pi // part_size))
+        with open(trace, "w") as f:
+            for r in part:
+                f.write(json.dumps({k: r[k] for k in ("tid", "call", "fn", "pre", "post", "diff")}) + "\n")
+        rt_fs.append((len(part), ex.submit(
+            tlc.run, "TraceCalls", tlc.cfg_text(init="TInit", next_="TNext", invariants=["Report", "Counted"]),
+            tag="c12_tracecalls_%d" % (pi // part_size), workers=1, env={"TRACE_FILE": trace}, timeout=tmo)))
     # (meanwhile the worker processes drain the re-use, schedule and stress jobs)
-    rt = rt_f.result()
-    ck.add_tlc("TraceCalls(purity trace, %d records)" % len(records), rt)
-    if rt.violated:
-        raise common.MachineryFailure("TraceCalls invariant %s violated" % rt.violated)
-    rep = next((p for p in rt.prints if isinstance(p, dict) and "judged" in p), None)
-    if rep is None or rep["judged"] != len(records):
-        raise common.MachineryFailure("TraceCalls judged %s of %d records" % (rep and rep["judged"], len(records)))
+    rep = {"judged": 0, "bad": [], "mutobs": set()}
+    for npart, f in rt_fs:
+        rt = f.result()
+        ck.add_tlc("TraceCalls(purity trace, %d records)" % npart, rt)
+        if rt.violated:
+            raise common.MachineryFailure("TraceCalls invariant %s violated" % rt.violated)
+        rp = next((p for p in rt.prints if isinstance(p, dict) and "judged" in p), None)
+        if rp is None or rp["judged"] != npart:
+            raise common.MachineryFailure("TraceCalls judged %s of %d records" % (rp and rp["judged"], npart))
+        rep["judged"] += rp["judged"]
+        rep["bad"] += rp["bad"]
+        rep["mutobs"] |= set(rp["mutobs"])
     by_tid = {r["tid"]: r for r in records}
     py_bad = {r["tid"] for r in records if r["call"] in PURE and r["pre"] != r["post"]}
     if {b["tid"] for b in rep["bad"]} != py_bad:
@@ -371,7 +381,7 @@ def _run(ck, seed, quick, pool, nproc, t0):
     # ---- collect re-use
     nreuse, classes = 0, set()
     for j in reuse_async:
-        res = j.get(1800)
+        res = j.get(1800 if quick else 7200)
         cpu["reuse"] += res["cpu"]
         nreuse += res["n"]
         classes |= {tuple(c) for c in res["classes"]}
@@ -386,7 +396,7 @@ def _run(ck, seed, quick, pool, nproc, t0):
     # ---- collect schedules
     nsched, failures, notes, seams_seen = 0, [], [], {}
     for sid, job, a in sched_async:
-        res = a.get(1800)
+        res = a.get(1800 if quick else 7200)
         cpu["schedules"] += res["cpu"]
         nsched += res["n"]
         failures += res["failures"]
@@ -407,7 +417,7 @@ def _run(ck, seed, quick, pool, nproc, t0):
     # ---- collect stress
     stress_counts = {}
     for a in stress_async:
-        res = a.get(1800)
+        res = a.get(1800 if quick else 7200)
         cpu["stress"] += res["cpu"]
         if res["stuck"]:
             raise common.MachineryFailure("stress threads did not finish")
